@@ -907,3 +907,32 @@ def unit_loops(ctx: TermCtx, model: Model, fi: FuncInfo):
                 it = strip_sites(ga.term_of(n.iter, ga.cfg.node_of(n)))
                 out.append((g, n, subst(it, binding) if binding else it))
     return out
+
+
+def final_delegate(model: Model, fi: FuncInfo, depth: int = 3) -> FuncInfo:
+    """the function that produces fi's result: fi itself, or - when every return of fi is `return helper(..)` /
+    `return self.helper(..)` of one private helper of its unit - that helper (followed transitively)."""
+    for _ in range(depth):
+        rets = [n for n in own_nodes(fi) if isinstance(n, ast.Return)]
+        if not rets:
+            return fi
+        targets = set()
+        for r in rets:
+            c = r.value
+            if not isinstance(c, ast.Call):
+                return fi
+            g = None
+            f = c.func
+            if isinstance(f, ast.Name):
+                tgt = model.lookup_target(model.resolve_dotted(fi.module, fi, f.id))
+                g = tgt if isinstance(tgt, FuncInfo) else None
+            elif isinstance(f, ast.Attribute) and isinstance(f.value, ast.Name) and fi.cls is not None and fi.pos_params and f.value.id == fi.pos_params[0]:
+                g = model.find_method(fi.cls, f.attr)
+            if g is None or g not in private_callees(model, fi):
+                return fi
+            targets.add(g.qual)
+            last = g
+        if len(targets) != 1:
+            return fi
+        fi = last
+    return fi
